@@ -1,8 +1,204 @@
-//! C08 — stub, to be written.
+//! C08: enumeration yields exactly the satisfying valuations and paths, once each.
+//!
+//! Sequences are printed as `<count>:<item>,<item>,…` (an empty valuation / clause is `~`), so that the
+//! empty sequence `0:` and the sequence holding one empty valuation `1:~` differ.
+#![allow(deprecated)]
 #[path = "../common.rs"]
 mod common;
+use biodivine_lib_bdd::*;
 use common::*;
 
-pub fn run(key: &str, _a: &[String], _out: &mut Out) { panic!("unknown key {}", key) }
-pub fn gen(_tier: Tier, _rng: &mut Rng64, _out: &mut Out) {}
+fn s(x: &str) -> String { x.to_string() }
+
+fn seq(items: Vec<String>) -> String {
+    format!("{}:{}", items.len(), items.join(","))
+}
+fn fmt_vals(v: &Option<Vec<BddValuation>>) -> String {
+    match v { Some(v) => seq(v.iter().map(fmt_valuation).collect()), None => s("panic") }
+}
+fn fmt_clauses(v: &Option<Vec<BddPartialValuation>>, n: usize) -> String {
+    match v { Some(v) => seq(v.iter().map(|c| fmt_partial(c, n)).collect()), None => s("panic") }
+}
+/// `01-` string (any length, `~` = empty) -> partial valuation; position i of the string is variable i
+fn parse_partial(text: &str) -> BddPartialValuation {
+    let mut vals = vec![];
+    if text != "~" {
+        for (i, c) in text.chars().enumerate() {
+            match c { '0' => vals.push((var(i), false)), '1' => vals.push((var(i), true)), _ => {} }
+        }
+    }
+    BddPartialValuation::from_values(&vals)
+}
+
+/// Executes one case from its textual inputs and writes the observation.
+pub fn run(key: &str, a: &[String], out: &mut Out) {
+    match key {
+        "C08.vals" => {
+            // B => sat_valuations (borrowed)
+            let b = Bdd::from_string(&a[0]);
+            let res = catch(|| b.sat_valuations().collect::<Vec<_>>());
+            out.case(key, a, &[fmt_vals(&res)]);
+        }
+        "C08.clauses" => {
+            // B => sat_clauses to_dnf
+            let b = Bdd::from_string(&a[0]);
+            let n = b.num_vars() as usize;
+            let it = catch(|| b.sat_clauses().collect::<Vec<_>>());
+            let dnf = catch(|| b.to_dnf());
+            out.case(key, a, &[fmt_clauses(&it, n), fmt_clauses(&dnf, n)]);
+        }
+        "C08.owned" => {
+            // B k => into_sat_valuations into_sat_clauses Bdd::from(valuation iterator after k items)
+            //        Bdd::from(path iterator after k items) items-taken-v items-taken-c
+            let b = Bdd::from_string(&a[0]);
+            let n = b.num_vars() as usize;
+            let k: usize = a[1].parse().unwrap();
+            let vals = catch(|| b.clone().into_sat_valuations().collect::<Vec<_>>());
+            let cls = catch(|| OwnedBddPathIterator::from(b.clone()).collect::<Vec<_>>());
+            let back_v = catch(|| {
+                let mut it = OwnedBddSatisfyingValuations::from(b.clone());
+                let mut taken = vec![];
+                for _ in 0..k { match it.next() { Some(v) => taken.push(v), None => break } }
+                (Bdd::from(it), taken)
+            });
+            let back_c = catch(|| {
+                let mut it = b.clone().into_sat_clauses();
+                let mut taken = vec![];
+                for _ in 0..k { match it.next() { Some(v) => taken.push(v), None => break } }
+                (Bdd::from(it), taken)
+            });
+            let (bv, tv) = match back_v { Some((x, t)) => (fmt_bdd(&x), fmt_vals(&Some(t))), None => (s("panic"), s("panic")) };
+            let (bc, tc) = match back_c { Some((x, t)) => (fmt_bdd(&x), fmt_clauses(&Some(t), n)), None => (s("panic"), s("panic")) };
+            out.case(key, a, &[fmt_vals(&vals), fmt_clauses(&cls, n), bv, bc, tv, tc]);
+        }
+        "C08.cvals" => {
+            // clause num_vars => ValuationsOfClauseIterator::new(clause, num_vars).collect()
+            let n: u16 = a[1].parse().unwrap();
+            let clause = parse_partial(&a[0]);
+            let res = catch(|| ValuationsOfClauseIterator::new(clause.clone(), n).collect::<Vec<_>>());
+            out.case(key, a, &[fmt_vals(&res)]);
+        }
+        "C08.uvals" => {
+            // num_vars => new_unconstrained(n) BddValuationIterator::new(n) empty()
+            let n: u16 = a[0].parse().unwrap();
+            let u = catch(|| ValuationsOfClauseIterator::new_unconstrained(n).collect::<Vec<_>>());
+            let d = catch(|| BddValuationIterator::new(n).collect::<Vec<_>>());
+            let e = catch(|| ValuationsOfClauseIterator::empty().collect::<Vec<_>>());
+            out.case(key, a, &[fmt_vals(&u), fmt_vals(&d), fmt_vals(&e)]);
+        }
+        _ => panic!("unknown key {}", key),
+    }
+}
+
+/// A canonical few-node diagram over `n` in 10..=40 variables with level gaps and at most 2^12
+/// satisfying valuations: (cube over the leading variables) & g & (cube over the trailing variables),
+/// where g is a random non-constant function of k <= 4 variables and u <= 12 - k variables (anywhere,
+/// also between the levels of g) are not tested at all.
+fn gap_bdd(rng: &mut Rng64) -> Vec<(usize, usize, usize)> {
+    let n = 10 + rng.below(31) as usize;
+    let k = 1 + rng.below(4) as usize;
+    let u = rng.below((12 - k).min(n - k - 2) as u64 + 1) as usize;
+    // choose the u untested variables
+    let mut vars: Vec<usize> = (0..n).collect();
+    for _ in 0..u { let i = rng.below(vars.len() as u64) as usize; vars.remove(i); }
+    let m = vars.len(); // tested variables, sorted
+    let start = rng.below((m - k) as u64 + 1) as usize;
+    let (top, rest) = vars.split_at(start);
+    let (gv, bottom) = rest.split_at(k);
+    // a non-constant g
+    let g = loop {
+        let tt = random_tt(rng, k);
+        if tt.iter().any(|b| *b) && !tt.iter().all(|b| *b) { break canon_triples(k, &tt); }
+    };
+    let mut nodes = vec![(n, 0, 0), (n, 1, 1)];
+    // bottom chain, deepest first
+    let mut one = 1usize;
+    for v in bottom.iter().rev() {
+        let pol = rng.bool();
+        nodes.push(if pol { (*v, 0, one) } else { (*v, one, 0) });
+        one = nodes.len() - 1;
+    }
+    let shift = nodes.len() - 2;
+    let map = |p: usize| if p == 0 { 0 } else if p == 1 { one } else { p + shift };
+    for (v, l, h) in g.iter().skip(2) { nodes.push((gv[*v], map(*l), map(*h))); }
+    let mut r = nodes.len() - 1;
+    for v in top.iter().rev() {
+        let pol = rng.bool();
+        nodes.push(if pol { (*v, 0, r) } else { (*v, r, 0) });
+        r = nodes.len() - 1;
+    }
+    nodes
+}
+
+fn all_kinds(b: &str, rng: &mut Rng64, out: &mut Out) {
+    run("C08.vals", &[s(b)], out);
+    run("C08.clauses", &[s(b)], out);
+    let k = *rng.pick(&[0usize, 1, 2, 3, 5, 100000]);
+    run("C08.owned", &[s(b), k.to_string()], out);
+}
+
+pub fn gen(tier: Tier, rng: &mut Rng64, out: &mut Out) {
+    let thorough = tier == Tier::Thorough;
+    // --- 0-variable and constant diagrams
+    for n in [0usize, 1, 2, 3, 5, 10] {
+        for b in [fmt_triples(&[(n, 0, 0)]), fmt_triples(&[(n, 0, 0), (n, 1, 1)])] {
+            for k in [0usize, 1, 100000] { run("C08.owned", &[b.clone(), k.to_string()], out); }
+            run("C08.vals", &[b.clone()], out);
+            run("C08.clauses", &[b.clone()], out);
+        }
+    }
+    // --- clause iterators: all clauses over m <= 4 positions, num_vars 0..=4 (also clauses that are
+    //     longer than num_vars: a `1` beyond num_vars panics in `new`, a `0` or `-` is ignored)
+    for n in 0..=6u16 { run("C08.uvals", &[n.to_string()], out); }
+    for m in 0..=4usize {
+        for code in 0..3usize.pow(m as u32) {
+            let mut c = code;
+            let text: String = (0..m).map(|_| { let d = c % 3; c /= 3; ['0', '1', '-'][d] }).collect();
+            for n in 0..=4usize { run("C08.cvals", &[text.clone(), n.to_string()], out); }
+        }
+    }
+    for _ in 0..(if thorough { 3000 } else { 300 }) {
+        let n = 5 + rng.below(if thorough { 12 } else { 8 }) as usize;
+        // at most 10 free positions
+        let free = rng.below(11.min(n as u64 + 1)) as usize;
+        let mut text: Vec<char> = (0..n).map(|_| if rng.bool() { '1' } else { '0' }).collect();
+        for _ in 0..free { let i = rng.below(n as u64) as usize; text[i] = '-'; }
+        let extra = if rng.chance(1, 6) { *rng.pick(&["0", "-", "1", "-0", "01"]) } else { "" };
+        let mut t: String = text.into_iter().collect();
+        t.push_str(extra);
+        run("C08.cvals", &[t, n.to_string()], out);
+    }
+    // --- exhaustive small universes
+    for n in 0..=3usize {
+        for t in 0..(1u64 << (1u64 << n)) {
+            let b = fmt_bdd(&bdd_of_tt(n, &tt_from_index(n, t)));
+            all_kinds(&b, rng, out);
+        }
+    }
+    if thorough {
+        for t in 0..65536u64 { let b = fmt_bdd(&bdd_of_tt(4, &tt_from_index(4, t))); all_kinds(&b, rng, out); }
+    } else {
+        for _ in 0..1500 { let b = fmt_bdd(&bdd_of_tt(4, &tt_from_index(4, rng.below(65536)))); all_kinds(&b, rng, out); }
+    }
+    // --- random functions over 5..=8 variables (shared sub-diagrams, skipped levels)
+    for _ in 0..(if thorough { 20000 } else { 1500 }) {
+        let n = 5 + rng.below(4) as usize;
+        let b = fmt_bdd(&random_bdd(rng, n));
+        all_kinds(&b, rng, out);
+    }
+    // --- few-node diagrams over 10..=40 variables with level gaps, <= 2^12 satisfying valuations
+    for _ in 0..(if thorough { 1500 } else { 120 }) {
+        let b = fmt_triples(&gap_bdd(rng));
+        all_kinds(&b, rng, out);
+    }
+    // --- valid but non-canonical diagrams (duplicated nodes, garbage, redundant test, renumbering);
+    //     a redundant test makes the path iterator panic by design ("The BDD is not canonical.")
+    for _ in 0..(if thorough { 4000 } else { 400 }) {
+        let n = 2 + rng.below(5) as usize;
+        let b0 = random_bdd(rng, n);
+        let b = fmt_bdd(&noncanon_variant(rng, &b0));
+        all_kinds(&b, rng, out);
+    }
+}
+
 fn main() { harness_main(gen, run) }
